@@ -129,7 +129,7 @@ def run(ctx):
            not handmade, others=handmade)
 
     # r4 who may index ---------------------------------------------------------------------------
-    ctx.only_callers('C03.r4', 'Storage::filter_block', {RECV, 'Storage::update_filter_scripts'}, 2)
+    ctx.only_callers('C03.r4', 'Storage::filter_block', {RECV, 'Storage::update_filter_scripts', 'Storage::init_genesis_block'}, 2)  # init: genesis for scripts at block 0 after a set_scripts that died early (F49)
     ctx.only_callers('C03.r4', 'Storage::update_block_number', {RECV, 'BlockFiltersProcess::execute'}, 2)
     U = ctx.body('Storage::update_filter_scripts')
     udu = DefUse(U)
